@@ -25,6 +25,14 @@ CHECKS = {
              note=_TB + ' jsonschema/json/file contents assumed deterministic; induction over histories is a meta-argument; a random-history '
                   'stand-in on the real code (fresh interpreter) runs as a second line, labelled bounded.',
              technique='contract-based deductive verification with ghost cache invariant (symbolic execution -> z3) + ground evaluation of bundled files'),
+ 'C17': dict(category='proof',
+             text='Masters clauses proved for every age band 35..10^6 (symbolic band, label built by the real "V%02d" format as a shape-typed '
+                  'string, lexicographic str comparison modelled): weight defined, never heavier with age, specific code valid/normalised/'
+                  'carrying the table weight; pass-through for any other text; library-produced labels and every table key: ground evaluation '
+                  '(finite, complete).',
+             note=_TB + ' Reading: U9/U11 have no implement in the table, ValueError is a permitted refusal there. Ground obligations are '
+                  'evaluations of the real functions on the finite set of labels/keys, counted under backend ground-evaluation.',
+             technique='contract-based deductive verification (symbolic execution on shape-typed strings -> LIA -> z3) + complete ground evaluation of table keys'),
 }
 _NYB = 'check not built yet in this build round (planned, see DESIGN.md §5); no claim is made'
-NOT_APPLICABLE = {p: _NYB for p in ['C01','C02','C03','C05','C06','C07','C08','C09','C10','C11','C12','C14','C15','C16','C17','C18']}
+NOT_APPLICABLE = {p: _NYB for p in ['C01','C02','C03','C05','C06','C07','C08','C09','C10','C11','C12','C14','C15','C16','C18']}
